@@ -83,10 +83,14 @@ def evaluate_expression(expression: str, context: dict[str, Any]) -> Any:
 
     try:
         tree = ast.parse(expr, mode="eval")
-    except SyntaxError as e:
+    except (SyntaxError, ValueError, RecursionError, MemoryError) as e:
+        # ValueError: NUL bytes / lone surrogates; RecursionError / MemoryError: nesting beyond the parser's limits
         raise ExpressionError(f"Invalid expression syntax: {e}") from e
 
-    return _eval_node(tree.body, context)
+    try:
+        return _eval_node(tree.body, context)
+    except RecursionError as e:
+        raise ExpressionError("Expression is nested too deeply") from e
 
 
 def _eval_node(node: ast.AST, context: dict[str, Any]) -> Any:
